@@ -50,6 +50,24 @@ def replay_case(case):
             bad.append(("C01.value", dict(op="calculate_capture", sc=sc, kind=why, trapz=case["trapz"], arraydom=bool(case["dom"])), case["exp"], (np.asarray(res) * case["scale"]).tolist()))
     except Exception as ex:
         bad.append(("C01.no-error", dict(op="calculate_capture", exc=type(ex).__name__), case["exp"], repr(ex)))
+    # the same call with the domain in other units: a power-of-two factor keeps every product exact, so the result
+    # must scale by exactly that factor (domains in metres instead of nanometres are as legitimate as any other)
+    for ds in (2.0 ** -30, 2.0 ** 12):
+        try:
+            c2 = dict(case)
+            kw = {} if case["dom"] else {"trapz": case["trapz"]}
+            d2 = (np.asarray(case["dom"], dtype=float) / case["DX"] * ds) if case["dom"] else (case["p"] / case["q"]) * ds
+            res = dreye.calculate_capture(np.asarray(case["F"], float), np.asarray(case["S"], float), domain=d2, **kw)
+            ok, why = _eq(np.asarray(res) / ds, case["scale"], case["exp"])
+            if not ok:
+                bad.append(("C01.value", dict(op="calculate_capture", sc=sc, kind=why, domain_units=ds, arraydom=bool(case["dom"])), case["exp"], (np.asarray(res) / ds * case["scale"]).tolist()))
+            if case["trapz"]:
+                r = dreye.integral(np.asarray(case["S"], float), d2)
+                ok, why = _eq(np.asarray(r) / ds, case["iscale"], case["expI"])
+                if not ok:
+                    bad.append(("C01.integral-value", dict(op="integral", kind=why, domain_units=ds), case["expI"], (np.asarray(r) / ds * case["iscale"]).tolist()))
+        except Exception as ex:
+            bad.append(("C01.no-error", dict(op="calculate_capture", exc=type(ex).__name__, domain_units=ds), case["exp"], repr(ex)))
     if case["trapz"]:
         # stand-alone integral helper: rows of S, last axis and moved axis, keepdims both ways
         S = np.asarray(case["S"], float)
